@@ -5,6 +5,7 @@ import Kdf.Model.Cb
 stack <n> ; <priv> <mask> ; <priv> <mask> ...   -- top first; mask bit i set = hook i overridden
 inv <hook 0..6>
 del <i>                                   -- addrxlat_ctx_del_cb of the layer at position i from the top
+top <hook> <own>                          -- a call of the libraries themselves through the top record (Model.Cb.topCall)
 ```
 The implementation id of the layer at height j above the default record (bottom layer j = 0) and hook h is `j*8+h`.
 Output per `inv`: `> called <impl> <priv> <depth>` | `> base <h> <depth>` | `> diverge` | `> crash`.
@@ -38,6 +39,10 @@ partial def loop (h : IO.FS.Stream) (stack : List Layer) : IO Unit := do
     loop h (build (nums.length / 2) nums)
   | ["inv", n] =>
     IO.println (showRes (invoke (stack.length + 64) stack (hookOf n.toNat!)))
+    loop h stack
+  | ["top", n, own] =>
+    -- a call the libraries make themselves through the top record (`own`: position of the caller's own record)
+    IO.println (showRes (topCall (stack.length + 64) stack (hookOf n.toNat!) own.toNat!))
     loop h stack
   | ["del", i] =>
     IO.println "> del"
